@@ -357,6 +357,31 @@ def run_posix(desc):
                                           size=10, bucket=('neg-opener', pat))
                             break
             out.nontrivial(('neg-opener', mod.__name__, pat))
+    # in name mode `/` is an ordinary character, and so is `\\/`: writing the slashes of a pattern escaped changes nothing (no new
+    # "start of a name" after it, no folding of repeated slashes, no end of a negation's reach)
+    sl_pats = ['lib/*', 'lib/?x', 'lib/[.x]', 'a//b', '!(a)/b', 'a/*', '*/*', '+(a/)b', 'lib/.*', '*/', '/*', 'a/!(b)', '?/?', '@(a/b|c)/d', 'a/[!x]*']
+    sl_names = ['lib/.hidden', 'lib/', 'lib/x', 'lib/.x', 'a/b', 'a//b', 'b/b', 'a/', '/a', '/', 'a/.b', 'lib/.', 'a/bb', 'a/b/d', 'c/d', 'a/ab', 'a/a/b', 'lib/..',
+                'lib/xx', '/.a', 'a/c', 'aa/b']
+    for pat in sl_pats:
+        esc = pat.replace('/', '\\/')
+        for fl in (0, F.DOTMATCH, F.EXTMATCH, F.EXTMATCH | F.DOTMATCH, F.IGNORECASE):
+            for conv in (lambda x: x, lambda x: x.encode()):
+                names = [conv(n) for n in sl_names]
+                try:
+                    a = F.filter(names, conv(pat), flags=fl)
+                    b = F.filter(names, conv(esc), flags=fl)
+                except Exception as e:
+                    out.violation({'mode': 'fn', 'pattern': esc, 'plain': pat, 'flags': fl, 'stream': 'escaped-slash', 'raw': True, 'name': sl_names[0],
+                                   'verdict': R.MUSTNOT, 'cfg': {}, 'problem': 'exception ' + type(e).__name__}, size=10, bucket=('escaped-slash-exc', pat))
+                    continue
+                out.evaluations += len(names)
+                if a != b:
+                    d = sorted(set(a) ^ set(b))[0]
+                    out.violation({'mode': 'fn', 'pattern': esc, 'plain': pat, 'flags': fl, 'stream': 'escaped-slash', 'raw': True, 'bytes': isinstance(d, bytes),
+                                   'name': d if isinstance(d, str) else d.decode(), 'verdict': R.MUST if d in a else R.MUSTNOT, 'cfg': {},
+                                   'problem': 'in name mode a pattern with escaped slashes is answered differently from the same pattern with plain slashes'},
+                                  size=10, bucket=('escaped-slash', pat))
+        out.nontrivial(('escaped-slash', pat))
     out.sample({'pattern': '[[:punct:]]', 'names': len(chars), 'stream': 'posix'})
     return out
 
@@ -372,6 +397,11 @@ def replay(case):
         except Exception as e:
             return False, {'exception': type(e).__name__}
         return a == b, {'with_negate': a, 'without': b}
+    if case.get('stream') == 'escaped-slash':
+        conv = (lambda x: x.encode()) if case.get('bytes') else (lambda x: x)
+        a = bool(F.fnmatch(conv(case['name']), conv(case['pattern']), flags=case['flags']))
+        b = bool(F.fnmatch(conv(case['name']), conv(case['plain']), flags=case['flags']))
+        return a == b, {'escaped': a, 'plain': b}
     if case.get('raw'):
         try:
             F.compile(case['pattern'], flags=F.DOTMATCH | F.EXTMATCH)
